@@ -355,10 +355,10 @@ def run_property(prop_id, tier="quick", seed=0, jobs=None, only=None):
                     results[k] = f.result()
                 except Exception:  # noqa: BLE001
                     results[k] = {"key": k, "error": traceback.format_exc(), "obligations": [], "covers": [], "paths": 0, "undecided": None, "bounded": [], "witnesses": {}}
-    return finish(prop_id, mod, tier, seed, keys, results, t0)
+    return finish(prop_id, mod, tier, seed, keys, results, t0, partial=only is not None)
 
 
-def finish(prop_id, mod, tier, seed, keys, results, t0):
+def finish(prop_id, mod, tier, seed, keys, results, t0, partial=False):
     kfs, fixed = load_known_findings(prop_id)
     obligations = []
     crashes = []
@@ -446,7 +446,7 @@ def finish(prop_id, mod, tier, seed, keys, results, t0):
     elif undecided or covers_failed or n_obl + len(bounded) == 0:
         status = 2
     min_obl = getattr(mod, "MIN_OBLIGATIONS", {}).get(tier, 1)
-    if status == 0 and n_obl + len(bounded) < min_obl:
+    if status == 0 and n_obl + len(bounded) < min_obl and not partial:  # --only (developer filter) runs a subset
         status = 2
         undecided.append(("*", f"only {n_obl + len(bounded)} obligations generated, expected at least {min_obl} (contracts no longer match the code?)"))
 
@@ -502,7 +502,10 @@ def finish(prop_id, mod, tier, seed, keys, results, t0):
         "wall_s": round(time.time() - t0, 2),
         "violations": len(violations),
     }
-    with open(os.path.join(VERIF, "evidence", f"{prop_id}.json"), "w") as fh:
+    # the dev-only source override (mutation experiments) and --only subset runs must never overwrite the evidence of /repo
+    ev_dir = os.path.join(VERIF, "evidence") if not (os.environ.get("VERIF_REPO_SRC") or partial) else os.path.join(VERIF, "replay", "_dev_evidence")
+    os.makedirs(ev_dir, exist_ok=True)
+    with open(os.path.join(ev_dir, f"{prop_id}.json"), "w") as fh:
         json.dump(ev, fh, indent=1, default=str)
 
     for ln in lines:
